@@ -369,6 +369,7 @@ func runC08(c *Ctx, r *Report) {
 
 	runC08Assign(c, r, reg)
 	runC08MathAbsent(c, r, reg, rs)
+	c08CompoundIsOperator(c, r)
 	runC08Is(c, r, rs, reg)
 	c08ShortCircuit(c, r)
 	c08Coalesce(c, r)
